@@ -23,7 +23,8 @@ for d in sorted(glob.glob("/verif/seeded/C*")):
         checks[c] = {"exit": int(rc), "seconds": int(secs)}
     sigs = re.findall(r"^failure (\S+):", log, re.M)
     meta = {
-        "property": pid,
+        "property": pid.split("-")[0],
+        "round": 2 if pid.endswith("-r2") else 1,
         "source": "independent sub-agent given only the property record and a scratch worktree",
         "files_touched": agent.get("files_touched"),
         "what_changed": agent.get("what_changed"),
